@@ -103,14 +103,18 @@ func corpus() []Case {
 
 func genCases(o hx.Opts) []Case {
 	r := hx.NewRand(o.Seed)
-	nSeq, nRep, nFun := 450, 28, 150
+	nSeq, nRep, nFun := 1800, 90, 500
 	if o.Thorough() {
-		nSeq, nRep, nFun = 4000, 250, 1500
+		nSeq, nRep, nFun = 15000, 700, 4000
 	}
 	if o.Search {
 		nSeq, nRep, nFun = nSeq*4, nRep*4, nFun*2
 	}
 	cs := corpus()
+	if o.Thorough() {
+		// a listener nobody accepts from: parks Serve for the whole watchdog (known finding, C15's file)
+		cs = append(cs, Case{Kind: "serve", End: "close", Setup: []string{"ibb-listen-noaccept"}, Seq: []string{canon["ibb"][0], canon["ping"][0]}, Labels: []string{"corpus/ibb-listen-noaccept"}})
+	}
 	setups := [][]string{nil, nil, nil, {"hist-consumer"}, {"hist-consumer", "ibb-listen"}, {"ibb-listen", "receipt-pending"}, {"muc-join"}, {"hist-consumer", "ibb-listen", "receipt-pending", "muc-join"}}
 	for i := 0; i < nSeq; i++ {
 		c := Case{Kind: "serve", End: "close", Setup: setups[r.Intn(len(setups))]}
